@@ -81,6 +81,31 @@ def codec_lines(rng, n):
     return lines
 
 
+def codec_conc(R):
+    """the cluster path taken by eight clients at the same time (harness `codec conc`): verdict of the filter, reply and log bytes as when submitted alone"""
+    import json
+    binary, err = core.build_harness()
+    if binary is None:
+        return
+    reps = []
+    for k in range(2 if R.tier == "quick" else 12):
+        rc, so, se, dt = core.run([binary, "codec", "conc", str(R.seed * 100 + k), "20000" if R.tier == "quick" else "60000"], timeout=600)
+        try:
+            reps.append(json.loads(so.strip().split("\n")[-1]))
+        except Exception:
+            reps.append(dict(result="crash", detail=(se or so)[-600:], seed=R.seed * 100 + k))
+    bad = [r for r in reps if r.get("result") != "ok"]
+    R.oblige("cluster path under concurrent clients (8 connections, own keys, two of them submitting what the filter refuses): filter verdict, reply and "
+             "log bytes of every command are those of the same command submitted alone", "exploration", not bad,
+             "; ".join((r.get("detail") or "")[:300] for r in bad[:2]) or "%d commands, %d refused" % (sum(r.get("ops", 0) for r in reps), sum(r.get("refused", 0) for r in reps)))
+    R.add_cases(sum(r.get("ops", 0) for r in reps), len(reps))
+    R.suites.append(dict(name="codec-conc", runs=len(reps), ops=sum(r.get("ops", 0) for r in reps), refused=sum(r.get("refused", 0) for r in reps), failures=len(bad)))
+    for r in bad[:1]:
+        R.violation("codec-conc", dict(kind="impl-violates-spec", engine="codec-conc", report=r, seed_used=r.get("seed"),
+                                       summary=("cluster path, concurrent clients: " + (r.get("detail") or r.get("result", "")))[:800],
+                                       explanation="what a command means on the cluster path depends on what other connections submit at the same moment"))
+
+
 def run_codec(R, ctx):
     binary, err = core.build_harness()
     R.oblige("harness builds against /repo working tree (-tags verif)", "build", binary is not None, err or "")
@@ -148,6 +173,7 @@ def no_long_block(gen):
 
 def run(R, ctx):
     run_codec(R, ctx)
+    codec_conc(R)
     rule_codec = ("codec: argument vectors of 1-6 arguments from the binary alphabet (empty, spaces, CR/LF, NUL, 0xff, RESP fragments), UTF-8 edge cases "
                   "(every first-byte class, E0/ED/F0/F4 second-byte limits, truncated sequences, U+2028/9, surrogates), every single byte, random bytes of "
                   "every length 0..20 (all base64 padding cases) and longer, nil elements, the empty array, PUBLISH/SUBSCRIBE in every letter case; "
@@ -167,7 +193,30 @@ def run(R, ctx):
                                          summary="theorem(s) no longer check: " + ", ".join(t for t, _ in ctx.broken)), found_input=False)
 
 
+def replay_conc(R, payload):
+    import json
+    binary, err = core.build_harness()
+    if binary is None:
+        print(err)
+        return 1
+    bad = 0
+    for k in range(5):
+        rc, so, se, dt = core.run([binary, "codec", "conc", str((payload.get("seed_used") or 1) + k), "60000"], timeout=600)
+        try:
+            r = json.loads(so.strip().split("\n")[-1])
+        except Exception:
+            r = dict(result="crash", detail=(se or so)[-400:])
+        if r.get("result") != "ok":
+            bad += 1
+            print("OBSERVED", (r.get("detail") or "")[:400])
+            break
+    print("replay: %s" % ("still failing" if bad else "not reproduced (concurrent schedules are not deterministic: a passing replay does not prove absence)"))
+    return 1 if bad else 0
+
+
 def replay(R, payload):
+    if payload.get("engine") == "codec-conc":
+        return replay_conc(R, payload)
     """re-run the recorded lines through the recorded engine (cluster-path programs with VERIF_CLUSTER_PATH=1) and the driver"""
     binary, err = core.build_harness()
     if binary is None:
